@@ -139,7 +139,9 @@ def report(prop, fails, known):
         p = os.path.join(d, re.sub(r"\W+", "_", key)[:80] + ".txt")
         with open(p, "w") as f: f.write("# property %s\n# %s\n%s\n" % (prop, what, replay))
         if printed < 8:
-            print("VIOLATION property=%s replay=%s" % (prop, p)); print("  " + what[:300])
+            # entries without a concrete failing program / row carry the marker: it closes the VIOLATION line
+            nf = " no-failing-input-found" if "no-failing-input-found" in what else ""
+            print("VIOLATION property=%s replay=%s%s" % (prop, p, nf)); print("  " + what.replace(" no-failing-input-found", "")[:300])
         printed += 1; rc = 1
     for kid, k in hits.items():
         print("KNOWN-FINDING: property=%s %s [%s]" % (prop, k["what"], kid))
